@@ -37,6 +37,8 @@ pub struct EnvHistory {
 }
 
 const L: usize = 3;
+/// assets of the multi-asset environment under test: MORE assets than published levels, so that a mixed-up const generic (a loop over LEVELS that should run over ASSETS) shows
+const MA: usize = 4;
 
 fn sd(s: MSide) -> Side {
     match s {
@@ -54,7 +56,7 @@ fn l2key(d: &Level2Data<L>) -> (u32, u32, u32, u32, Vec<(u32, u32)>, Vec<(u32, u
     (d.bid_price, d.ask_price, d.bid_vol, d.ask_vol, d.bid_price_levels.to_vec(), d.ask_price_levels.to_vec())
 }
 
-/// a uniform face over Env<L> and MarketEnv<2, L>
+/// a uniform face over Env<L> and MarketEnv<MA, L>
 trait Sim {
     fn assets(&self) -> usize;
     fn place(&mut self, a: usize, s: Side, v: u32, tr: u32, p: Option<u32>) -> Result<usize, ()>;
@@ -95,8 +97,8 @@ impl Sim for Env<L> {
     fn queue_len(&self) -> usize { 0 } // the queue is not observable through the public API (get_transactions is test-only)
 }
 
-impl Sim for MarketEnv<2, L> {
-    fn assets(&self) -> usize { 2 }
+impl Sim for MarketEnv<MA, L> {
+    fn assets(&self) -> usize { MA }
     fn place(&mut self, a: usize, s: Side, v: u32, tr: u32, p: Option<u32>) -> Result<usize, ()> { self.place_order(a, s, v, tr, p).map(|x| x.1).map_err(|_| ()) }
     fn cancel(&mut self, a: usize, id: usize) { self.cancel_order((a, id)) }
     fn modify(&mut self, a: usize, id: usize, p: Option<u32>, v: Option<u32>) { self.modify_order((a, id), p, v) }
@@ -147,7 +149,7 @@ fn run_sim<S: Sim>(mut env: S, h: &EnvHistory, fails: &mut Vec<Failure>) {
     let n = env.assets();
     let mut rng = Xoroshiro128StarStar::seed_from_u64(h.seed);
     // plain books driven in lock-step (the "stand-alone single-asset books")
-    let mut plain: Vec<OrderBook<L>> = (0..n).map(|a| OrderBook::new(h.t0, h.ticks[a], h.trading)).collect();
+    let mut plain: Vec<OrderBook<L>> = (0..n).map(|a| OrderBook::new(h.t0, h.ticks[a % h.ticks.len()], h.trading)).collect();
     let mut queue: Vec<Instr> = vec![];
     let mut k_steps = 0usize;
     let mut live_rows: Vec<Vec<Vec<u32>>> = vec![vec![]; n];
@@ -158,9 +160,9 @@ fn run_sim<S: Sim>(mut env: S, h: &EnvHistory, fails: &mut Vec<Failure>) {
             EOp::Place { asset, side, vol, trader, price } => {
                 let a = *asset % n;
                 let r = env.place(a, sd(*side), *vol, *trader, *price);
-                let expect_ok = price.map_or(true, |p| p % h.ticks[a] == 0);
+                let expect_ok = price.map_or(true, |p| p % h.ticks[a % h.ticks.len()] == 0);
                 if r.is_ok() != expect_ok {
-                    fail(k, "C12.create_iff", format!("place_order returned ok={} for price {:?} tick {}", r.is_ok(), price, h.ticks[a]), fails);
+                    fail(k, "C12.create_iff", format!("place_order returned ok={} for price {:?} tick {}", r.is_ok(), price, h.ticks[a % h.ticks.len()]), fails);
                 }
                 if let Ok(id) = r {
                     let pid = plain[a].create_order(sd(*side), *vol, *trader, *price).unwrap();
@@ -288,7 +290,7 @@ pub fn run_env_history(h: &EnvHistory) -> Vec<Failure> {
     let res = std::panic::catch_unwind(std::panic::AssertUnwindSafe(|| {
         let mut f = vec![];
         if h.env == "market_env" {
-            run_sim(MarketEnv::<2, L>::new(h.t0, [h.ticks[0], h.ticks[1]], h.step_size, h.trading), h, &mut f);
+            run_sim(MarketEnv::<MA, L>::new(h.t0, [h.ticks[0], h.ticks[1 % h.ticks.len()], h.ticks[2 % h.ticks.len()], h.ticks[3 % h.ticks.len()]], h.step_size, h.trading), h, &mut f);
         } else {
             run_sim(Env::<L>::new(h.t0, h.ticks[0], h.step_size, h.trading), h, &mut f);
         }
@@ -316,7 +318,7 @@ fn random_env_history(rng: &mut Xoroshiro128StarStar, market: bool, overrun: boo
             in_batch = 0;
         }
         let r = rng.gen_range(0..100);
-        let asset = rng.gen_range(0..2);
+        let asset = if !market { 0 } else if rng.gen_bool(0.6) { rng.gen_range(0..2) } else { rng.gen_range(2..MA) };
         let side = if rng.gen_bool(0.5) { MSide::Bid } else { MSide::Ask };
         if r >= 77 { in_batch = 0; } else if r < 72 { in_batch += 1; }
         ops.push(if r < 2 {
@@ -346,7 +348,10 @@ fn matches(f: &Failure, prop: &str) -> bool {
     prop == "any" || f.clause.starts_with(prop) || f.clause == "panic" || (prop == "C14" && f.clause.starts_with("C08")) || (prop == "C08" && f.clause.starts_with("C14"))
 }
 
-pub fn search_env(prop: &str, seed: u64, nrandom: usize, budget_s: u64, allow_overrun: bool) -> Option<(EnvHistory, Vec<Failure>)> {
+pub fn search_env(prop: &str, seed: u64, nrandom: usize, budget_s: u64, allow_overrun: bool, overrun_other: bool) -> Option<(EnvHistory, Vec<Failure>)> {
+    // overrun_other: histories INSIDE the step-overrun domain of the recorded C05 finding, accepting only failures of OTHER clauses than the one the finding fails
+    // (C05 also says: all other guarantees continue to hold when a step carries more instructions than the step size has time units)
+    let matches = |f: &Failure, prop: &str| -> bool { if overrun_other { f.clause != "C05.step_overrun" } else { matches(f, prop) } };
     let t0 = std::time::Instant::now();
     let mut rng = Xoroshiro128StarStar::seed_from_u64(seed ^ 0xe57);
     for k in 0..nrandom {
@@ -354,7 +359,7 @@ pub fn search_env(prop: &str, seed: u64, nrandom: usize, budget_s: u64, allow_ov
             break;
         }
         let market = if prop == "C14" { true } else { k % 2 == 1 };
-        let overrun = allow_overrun && prop == "C05";
+        let overrun = (allow_overrun || overrun_other) && prop == "C05";
         let mut h = random_env_history(&mut rng, market, overrun, 10 + (k % 5) * 10);
         let fails = run_env_history(&h);
         if fails.iter().any(|f| matches(f, prop)) {
